@@ -520,4 +520,36 @@ theorem tie_doTake_decisions (c : CacheRead) (q : QueryRes) (setNfErr cacheValEr
 unmarshals the flight's bytes (rows r0 / w2 of `RM`: both return `cval` of the flight). -/
 theorem tie_doTake_after_flight_decisions : ∀ e f, doTakeExit e f = if e then 0 else if f then 1 else 2 := by decide
 
+/-! ### Round 5e: allocation sites of the constructors (extract/c07.go `c07Allocs`: typed `Alloc` per field of the
+constructor's literal).  The multi-object theorems (`RM.MReach`, `rm_instances_independent`, and the per-object `SF` /
+`LC` systems) start every object from ITS OWN initial state: that is exactly "every state-carrying field is allocated
+afresh at each construction" — a package-level variable there (one flight group / map for all objects: seeded C07-9, own
+mutations M2 / M5, the shared barrier of round 4) makes `ownState` false. -/
+
+/-- every listed field is initialised by a call / literal evaluated at each construction. -/
+def ownState (allocs : List (String × Alloc)) (stateFields : List String) : Bool :=
+  stateFields.all fun f => match allocs.lookup f with | some (.fresh _) => true | _ => false
+
+def globalsOf (allocs : List (String × Alloc)) : List String :=
+  allocs.filterMap fun fa => match fa.2 with | .global n => some n | _ => none
+
+/-- `NewSingleFlight`, `NewLockedCalls`, `NewResourceManager`, `NewCache`: own map(s) AND own flight group per object
+(the manager's and the cache's flight group come from `NewSingleFlight()`, itself fresh); no package-level object in any
+of them except the stateless `emptyLruCache`.  `NewNode` keeps the CALLER's flight group, redis handle, stat and
+not-found error (parameters 1, 0, 2, 3): sharing is the caller's decision (sqlc / monc: one group per process). -/
+theorem tie_ctor_own_state :
+    ownState newSingleFlightAllocs ["calls"] = true ∧ ownState newLockedCallsAllocs ["m"] = true ∧
+    ownState newResourceManagerAllocs ["resources", "singleFlight"] = true ∧
+    newResourceManagerAllocs.lookup "singleFlight" = some (.fresh "NewSingleFlight") ∧
+    ownState newCacheAllocs ["data", "barrier"] = true ∧
+    newCacheAllocs.lookup "barrier" = some (.fresh "syncx.NewSingleFlight") ∧
+    globalsOf newSingleFlightAllocs = [] ∧ globalsOf newLockedCallsAllocs = [] ∧ globalsOf newResourceManagerAllocs = [] ∧
+    globalsOf newCacheAllocs = ["emptyLruCache"] ∧ globalsOf newNodeAllocs = [] ∧
+    newNodeAllocs.lookup "barrier" = some (.param 1) ∧ newNodeAllocs.lookup "rds" = some (.param 0) ∧
+    newNodeAllocs.lookup "stat" = some (.param 2) ∧ newNodeAllocs.lookup "errNotFound" = some (.param 3) := by decide
+
+/-- the reading is not vacuous: a shared object in a state field is rejected. -/
+example : ownState [("resources", .fresh "make"), ("singleFlight", .global "resourceFlights")] ["resources", "singleFlight"] = false := by
+  decide
+
 end GoZero.C07.Tie
